@@ -9,12 +9,14 @@ Definition src_desc := (res (dict * str) * option str)%type.   (* what a recordi
 Inductive case :=
 | CMerge (ml ms : bool) (a b : dict)
 | CChain (ml ms : bool) (ht : list (str * str)) (srcs : list src_desc)
-         (sys : str) (pd : dict) (pv : str) (fk : str) (fv : val).
+         (sys : str) (pd : dict) (pv : str) (fk : str) (fv : val)
+| CAssoc (ml ms : bool) (a b c : dict).                         (* three trees, both groupings *)
 
 Inductive obs :=
 | OMerge (r : res dict) (a' b' : dict)                         (* result, arguments afterwards *)
 | OChain (glog : list call) (gres : res (dict * str))          (* get_data: calls seen by the sources, result *)
-         (flog : list nat) (fres : option str).                (* find_system: who was asked, result *)
+         (flog : list nat) (fres : option str)                 (* find_system: who was asked, result *)
+| OAssoc (l r : res dict).                                      (* merge (merge a b) c, merge a (merge b c) *)
 
 (* the hash as a table filled by the harness with the real _hash_str *)
 Definition table_H (t : list (str * str)) (s : str) : str :=
@@ -29,6 +31,8 @@ Definition run_model (c : case) : obs :=
       let (glog, gres) := comp_get (table_H ht) ml ms 0 ss sys pd pv in
       let (flog, fres) := comp_find 0 ss fk fv in
       OChain glog gres flog fres
+  | CAssoc ml ms a b c =>
+      OAssoc (bind (merge ml ms a b) (fun m => merge ml ms m c)) (bind (merge ml ms b c) (fun m => merge ml ms a m))
   end.
 
 (* ---------------------------------------------------------------- checker *)
@@ -82,8 +86,20 @@ Definition holds_chain ml ms ht (srcs : list src_desc) sys pd pv fk fv
   (let (sl, sr) := find_spec 0 ss fk fv in
    if list_eqb Nat.eqb flog sl && ostr_eqb fres sr then [] else ["find_first_non_none"%string]).
 
+Definition res_same (r1 r2 : res dict) : bool :=
+  match r1, r2 with
+  | Ok a, Ok b => same (VDict a) (VDict b)
+  | Err e, Err e' => exc_eqb e e'
+  | _, _ => false
+  end.
+(* associativity including the exception: not a theorem of this development (see Props.v); the clause
+   judges the implementation's two groupings against each other *)
+Definition holds_assoc (l r : res dict) : list string :=
+  if res_same l r then [] else ["merge_assoc"%string].
+
 Definition holds (c : case) (o : obs) : list string :=
   match c, o with
+  | CAssoc _ _ _ _ _, OAssoc l r => holds_assoc l r
   | CMerge ml ms a b, OMerge r a' b' => holds_merge ml ms a b r a' b'
   | CChain ml ms ht srcs sys pd pv fk fv, OChain glog gres flog fres =>
       holds_chain ml ms ht srcs sys pd pv fk fv glog gres flog fres
@@ -94,6 +110,9 @@ Definition valid (c : case) : Prop :=
   match c with
   | CMerge _ _ a b => wf (VDict a) = true /\ wf (VDict b) = true
   | CChain _ _ _ _ _ _ _ _ _ => True
+  | CAssoc ml ms a b c =>
+      (* the triple is one on which the model's two groupings agree (checked, not proved, for every generated triple) *)
+      res_same (bind (merge ml ms a b) (fun m => merge ml ms m c)) (bind (merge ml ms b c) (fun m => merge ml ms a m)) = true
   end.
 
 (* ---------------------------------------------------------------- sx *)
@@ -121,6 +140,15 @@ Definition sx_of_obs (o : obs) : sx :=
   | OMerge r a' b' => L [sx_of_res sx_of_dict r; sx_of_dict a'; sx_of_dict b']
   | OChain glog gres flog fres =>
       L [L (map sx_of_call glog); sx_of_gres gres; L (map sxNat flog); sx_of_ostr fres]
+  | OAssoc l r => L [sx_of_res sx_of_dict l; sx_of_res sx_of_dict r]
+  end.
+Definition aobs_of_sx (x : sx) : option obs :=
+  match x with
+  | L [l; r] => match res_of_sx dict_of_sx l, res_of_sx dict_of_sx r with
+                | Some l', Some r' => Some (OAssoc l' r')
+                | _, _ => None
+                end
+  | _ => None
   end.
 Definition obs_of_sx (merge_case : bool) (x : sx) : option obs :=
   if merge_case then
@@ -157,6 +185,11 @@ Definition decode (x : sx) : option (case * obs) :=
       | Some ml', Some ms', Some a', Some b', Some o => Some (CMerge ml' ms' a' b', o)
       | _, _, _, _, _ => None
       end
+  | L [I 2%Z; ml; ms; a; b; c; io] =>
+      match asBool ml, asBool ms, dict_of_sx a, dict_of_sx b, dict_of_sx c, aobs_of_sx io with
+      | Some ml', Some ms', Some a', Some b', Some c', Some o => Some (CAssoc ml' ms' a' b' c', o)
+      | _, _, _, _, _, _ => None
+      end
   | L [I 1%Z; ml; ms; L ht; L srcs; B sys; pd; B pv; B fk; fv; io] =>
       match asBool ml, asBool ms, omap' pair_of_sx ht, omap' src_of_sx srcs, dict_of_sx pd,
             val_of_sx fv, obs_of_sx false io with
@@ -172,5 +205,10 @@ Definition entry (x : sx) : sx :=
   | None => sxS "bad-case"
   | Some (c, io) =>
       let m := run_model c in
-      L [ sx_of_obs m; L (map sxS (holds c m)); L (map sxS (holds c io)) ]
+      L [ sx_of_obs m; L (map sxS (holds c m)); L (map sxS (holds c io));
+          sxBool (match c with
+                  | CAssoc ml ms a b c' =>
+                      res_same (bind (merge ml ms a b) (fun m => merge ml ms m c')) (bind (merge ml ms b c') (fun m => merge ml ms a m))
+                  | _ => true
+                  end) ]
   end.
